@@ -15,6 +15,7 @@ import (
 	"strconv"
 	"strings"
 	"time"
+	"unicode/utf8"
 )
 
 // FilterFunc is a function that can be used as a filter
@@ -1116,7 +1117,7 @@ func length(v interface{}) (int, error) {
 
 	switch value := v.(type) {
 	case string:
-		return len(value), nil
+		return utf8.RuneCountInString(value), nil
 	case []interface{}:
 		return len(value), nil
 	case map[string]interface{}:
@@ -1126,7 +1127,9 @@ func length(v interface{}) (int, error) {
 	// Use reflection for other types
 	rv := reflect.ValueOf(v)
 	switch rv.Kind() {
-	case reflect.Array, reflect.Slice, reflect.Map, reflect.String:
+	case reflect.String:
+		return utf8.RuneCountInString(rv.String()), nil
+	case reflect.Array, reflect.Slice, reflect.Map:
 		return rv.Len(), nil
 	}
 
@@ -1348,7 +1351,8 @@ func (e *CoreExtension) filterCapitalize(value interface{}, args ...interface{})
 	words := strings.Fields(s)
 	for i, word := range words {
 		if len(word) > 0 {
-			words[i] = strings.ToUpper(word[0:1]) + strings.ToLower(word[1:])
+			_, size := utf8.DecodeRuneInString(word)
+			words[i] = strings.ToUpper(word[:size]) + strings.ToLower(word[size:])
 		}
 	}
 
@@ -1365,7 +1369,8 @@ func (e *CoreExtension) filterTitle(value interface{}, args ...interface{}) (int
 	words := strings.Fields(s)
 	for i, word := range words {
 		if len(word) > 0 {
-			words[i] = strings.ToUpper(word[0:1]) + strings.ToLower(word[1:])
+			_, size := utf8.DecodeRuneInString(word)
+			words[i] = strings.ToUpper(word[:size]) + strings.ToLower(word[size:])
 		}
 	}
 
@@ -1380,7 +1385,8 @@ func (e *CoreExtension) filterFirst(value interface{}, args ...interface{}) (int
 	switch v := value.(type) {
 	case string:
 		if len(v) > 0 {
-			return string(v[0]), nil
+			_, size := utf8.DecodeRuneInString(v)
+			return v[:size], nil
 		}
 		return "", nil
 	case []interface{}:
@@ -1396,7 +1402,8 @@ func (e *CoreExtension) filterFirst(value interface{}, args ...interface{}) (int
 	case reflect.String:
 		s := rv.String()
 		if len(s) > 0 {
-			return string(s[0]), nil
+			_, size := utf8.DecodeRuneInString(s)
+			return s[:size], nil
 		}
 		return "", nil
 	case reflect.Array, reflect.Slice:
@@ -1423,7 +1430,8 @@ func (e *CoreExtension) filterLast(value interface{}, args ...interface{}) (inte
 	switch v := value.(type) {
 	case string:
 		if len(v) > 0 {
-			return string(v[len(v)-1]), nil
+			_, size := utf8.DecodeLastRuneInString(v)
+			return v[len(v)-size:], nil
 		}
 		return "", nil
 	case []interface{}:
@@ -1439,7 +1447,8 @@ func (e *CoreExtension) filterLast(value interface{}, args ...interface{}) (inte
 	case reflect.String:
 		s := rv.String()
 		if len(s) > 0 {
-			return string(s[len(s)-1]), nil
+			_, size := utf8.DecodeLastRuneInString(s)
+			return s[len(s)-size:], nil
 		}
 		return "", nil
 	case reflect.Array, reflect.Slice:
